@@ -267,11 +267,14 @@ MC_HARNESS(nest) {
   // exist, each lost wake-up costs one backstop period, so 3 s of virtual time (30 periods) without an end is "never".
   mc::Shared<int> stage{0};
   constexpr uint64_t kLimitNs = 3000000000ULL;
-  mc::spawn([&stage] {
+  mc::Shared<int> parked{0};
+  mc::spawn([&stage, &parked] {
+    parked.set(1);
     mc::block_until([&stage] { return stage.get() == 2 || mc::now_ns() > kLimitNs; });
     MC_CHECK(stage.get() == 2, "no termination: after %llu ms of virtual time (30 backstop periods) %s", (unsigned long long)(mc::now_ns() / 1000000),
              stage.get() == 0 ? "the outer wait() has not returned" : "~ThreadPool has not returned");
   });
+  mc::block_until([&parked] { return parked.get() != 0; }); // the watchdog is parked (disabled) before the program starts: no extra alternatives
   {
     dispenso::ThreadPool pool((size_t)N);
     s.pool = &pool;
